@@ -1,6 +1,8 @@
 """Per-property configuration of ./check: harness streams, which driver verdicts count for the
 property, Lean modules/theorems beyond Props/<id>.lean."""
 
+import cli_streams  # noqa: E402
+
 ALL_SCEN = "satisfy=3,iterate=2,iterprefix=1,optimise=2,assume=2"
 
 
@@ -130,6 +132,15 @@ PROPS = {
         "level_text": "Proof: checkCore_iff (accepted core <-> IsCore: every core predicate implied by the assumptions within the declared domains, model /\\ core inconsistent), core_refutes, withAtoms_sat; Atom.mutex models Predicate::is_mutually_exclusive_with arm by arm with mutex_iff (exactness over all integers). Tie to code: 1-3 assumption solves (all predicate kinds, duplicates, contradictory pairs, root-true/false) + a plain solve afterwards on one solver; every solution, verdict, core and conflicting-pair report is judged.",
         "level_note": LEVEL_NOTE_COMMON,
     },
+    "C06": {
+        "streams": [
+            {"name": "proof", "mode": "proof", "quick": 600, "thorough": 12000, "args": []},
+        ],
+        "relevant": lambda kind, rec, case: True,
+        "lean_modules": ["Pumpkin.Check.DrcpCheck", "Pumpkin.Check.AtomRup"],
+        "level_text": "Proof: Check/DrcpCheck.lean is a verified DRCP checker over Check/AtomRup.lean (domain-aware reverse unit propagation on atomic constraints, rup_sound). stepCheck_inv / runSteps_inv: every accepted step keeps the invariant that all window inferences and live nogoods hold in every solution (that also satisfies the improvement axioms used so far); checkDrcp_unsat_sound: accepted UNSAT proof => the model has no solution; checkDrcp_bound_sound_min/max: accepted optimality proof => no solution beats the concluded bound; accepted_nogoods_implied; inference_follows_from_its_constraint (a tagged inference is entailed by exactly the tagged constraint, checkInference_iff); conclusion_needs_empty_nogood; with hints a nogood may use only the listed steps (usable_sub). Tie to code: random models (planted 25%) are posted with names and tags on a solver with ProofLog::cp in scaffold / full / hinted mode, solved by satisfy, LSU or LUS under random options and branchers (UIP learning, with/without minimisation); the .drcp and .lits files are read with the repo's own reader, every used literal code must be defined, and the whole certificate is judged by the verified checker against the Spec model (UNSAT => refutation accepted; optimal => bound equals the verified optimum and, when the proof refutes the axioms, the checker derives the same bound).",
+        "level_note": LEVEL_NOTE_COMMON + "An optimality proof whose steps are all valid but which contains no refutation of the improvement axioms (LUS proofs, which state the bound found by core-guided search) is accepted as 'steps valid' and its bound is judged by the verified optimum instead of by the proof. Untagged inferences (posted clauses) are accepted when they follow from one constraint plus the unit nogoods derived so far. Scaffold proofs carry no inferences: only the nogood skeleton, the conclusion and the literal definitions are checked.",
+    },
     "C07": {
         "streams": [
             {"name": "configs", "mode": "configs", "quick": 120, "thorough": 3000, "args": ["--nconfigs", "6", "--maxproduct", "6000"]},
@@ -217,5 +228,43 @@ PROPS = {
         "relevant": lambda kind, rec, case: True,
         "level_text": "Proof: Model/Drcp.lean models the writer (render) and the reader grammar (parse) at token level with the Rust types' ranges (NonZero i32 literals, u64 ids, u32 tags); parse_render: every well-formed step reads back unchanged (empty premise lists, empty nogoods with/without hints, empty hint lists, tag, label, extreme codes), parse_render_seq for sequences; IntAtomic.not_not / not64_not64 / BoolAtomic.not_not. Tie to code: random step sequences through the real ProofWriter must be byte-identical to the model's rendering (exact), the real ProofReader must return the written steps, on malformed token soups the real reader's accept/reject verdict and result must equal the model's; LiteralDefinitions write -> parse -> equal and deterministic; !!a == a through the real Not impl.",
         "level_note": LEVEL_NOTE_COMMON + "Lexing (characters <-> tokens, Rust integer Display / nom integer parsers) is glue checked by the exact correspondence, not proved.",
+    },
+    "C14": {
+        "needs_cli": True,
+        "streams": [
+            {"name": "cnf", "py": cli_streams.stream_c14, "quick": 250, "thorough": 5000},
+        ],
+        "relevant": lambda kind, rec, case: True,
+        "level_text": "Proof: Check/Rup.lean is a verified clausal RUP checker — rup_sound (an accepted lemma holds in every model of the clause set, by an invariant over unit propagation), checkProof_sound / accepted_proof_refutes (an accepted proof file refutes the formula), needs_empty_clause; lit_sem ties the DIMACS reading of a literal to the Spec's 0-1 model. Tie to code (black box, CLI built from the working tree): generated CNFs (0-8 variables; empty formula, empty clause, units, duplicate and tautological clauses, dense unsatisfiable ones) are each written in three layouts (canonical; comments / tabs / blank lines / clauses broken over lines with comments in between / several clauses per line / CRLF; header with repeated blanks or as last line without newline); every s-line is judged against the oracle, every v-line must satisfy all clauses, the three verdicts must be equal, and with --proof-path the proof file must be accepted by the verified checker.",
+        "level_note": LEVEL_NOTE_COMMON + "The byte-level parser is exercised black-box; no Lean model of the DIMACS state machine yet.",
+    },
+    "C15": {
+        "needs_cli": True,
+        "streams": [
+            {"name": "wcnf", "py": cli_streams.stream_c15, "quick": 250, "thorough": 5000},
+        ],
+        "relevant": lambda kind, rec, case: True,
+        "level_text": "Proof: Check/MaxSat.lean — maxsatOpt_spec (the oracle value is attained by a hard-satisfying assignment and no hard-satisfying assignment is cheaper), maxsatOpt_none_iff, checkMaxSat_sound (an accepted answer: the printed model satisfies the hard clauses, costs exactly the reported value, which is optimal), encodings_agree. Tie to code (black box): generated WCNFs (1-7 variables, unit / empty / duplicate soft clauses, soft clauses decided at the root in both polarities, weights 1-9 and a few large, hard part sometimes unsatisfiable) are solved by the CLI with both upper-bound encodings and random seeds; the last o-line, the v-line and the status are judged; the o-lines must strictly decrease; both encodings must report the same optimum.",
+        "level_note": LEVEL_NOTE_COMMON + "The encoders (generalised totaliser, cardinality network) are exercised end-to-end, not modelled.",
+    },
+    "C13": {
+        "needs_cli": True,
+        "streams": [
+            {"name": "fzn", "py": cli_streams.stream_c13, "quick": 300, "thorough": 6000},
+        ],
+        "relevant": lambda kind, rec, case: True,
+        "level_text": "Proof: the standard meaning of the builtins as Spec constraints (the table used to translate a generated FlatZinc model into a Spec model) is proved to say what the FlatZinc standard says (int_le/lt/eq/ne_sem, int_plus_sem, bool_not_sem over 0-1 values, element_index_shift for the 1-based index, set_in_sem), reification via C09, -a completeness via checkSolSet_perm. Tie to code (black box, CLI built from the working tree): generated .fzn models over 41 builtins (ranges, set-typed and fixed declarations, constants as arguments, search annotations) run with/without -a, -f, random seeds and both optimisation strategies; every printed assignment must be a solution, with -a the printed set must equal the oracle's solution set and end with the completeness line, =====UNSATISFIABLE===== only if there is no solution, and for minimize/maximize the last solution's objective must be the verified optimum.",
+        "level_note": LEVEL_NOTE_COMMON + "The third-party flatzinc parser crate and the compiler passes (prepare_variables, merge_equivalences, collect_domains, search strategy construction) are tied only through the answers.",
+    },
+    "C20": {
+        "needs_cli": True,
+        "level": "other",
+        "streams": [
+            {"name": "repro", "py": cli_streams.stream_c20, "quick": 120, "thorough": 2500},
+        ],
+        "relevant": lambda kind, rec, case: True,
+        "level_text": "Other (inventory theorem + divergence search): the translator regenerates Gen/Ambient.lean from the current sources — every hash container with std's randomly seeded hasher (classified: look-ups only / iteration sorted / iterated), every clock, entropy source, environment access and pointer-to-integer cast — and Lean proves by kernel evaluation that every entry is of an allowed class (ambient_ok); Gen/Tables.lean pins the option spaces. The property itself is decided by running identical invocations twice in separate processes with different environment size and working directory: library runs through the harness (solution order, verdicts, cores, poll and decision counts, explanations) and CLI runs on CNF (+DRAT file), WCNF and FlatZinc (+ .drcp and .lits files, statistics with the time-valued lines removed) across seeds and options; all bytes must be equal.",
+        "level_note": "A Lean proof cannot exhibit hashbrown iteration order, allocator addresses or the wall clock; the inventory classification is a syntactic analysis by the translator (trusted). " + LEVEL_NOTE_COMMON,
+        "explanation": "inventory theorem (Lean, decide) + replay-divergence search over separate processes",
     },
 }
